@@ -28,7 +28,8 @@ LEVEL_TEXT = (
     "iterations, two different keepers) / forged; afterwards genuine and forged TimerNotify and SecureWrapper frames at timer offsets ahead, inside the "
     "synchronisation tolerance, inside the latency tolerance, on the boundary and late, wrong-key / bit-flipped / other-session / nested wrappers, plain "
     "frames of all 29 body classes, unknown services and garbage, well formed frames cut short / extended / with one octet replaced (plain and inside an authentic wrapper), echoes, interleaved with our own sends and idle periods that let the periodic notify "
-    "fire; latency tolerance 100..3000 ms. The same SecureRouting object is also disconnected and connected again inside a history (second synchronisation answered by a keeper that is "
+    "fire; latency tolerance 100..3000 ms. A genuine synchronisation reply is also delivered in the loop iterations around the instant the synchronisation wait is given up (timer callbacks within 1 ns of the "
+    "timeout deadline of synchronize(), 0-2 call_soon hops later, and right after the connect task was cancelled). The same SecureRouting object is also disconnected and connected again inside a history (second synchronisation answered by a keeper that is "
     "level or ahead, or unanswered) with sends before and after; timer monotonicity of outgoing wrappers is judged across the restart. Histories are sampled, hence exploration."
 )
 LEVEL_NOTE = (
@@ -66,6 +67,11 @@ def gen_spec(rng, index):
         "latency_ms": rng.choice((100, 101, 337, 500, 1000, 1000, 1006, 1999, 2000, 3000)),
         "sync": [rng.choice(SYNC_KINDS) for _ in range(rng.choice((1, 1, 2, 3)))],
         "main": [rng.choice(MAIN_KINDS) for _ in range(rng.randrange(6, 34))],
+        # a genuine synchronisation reply delivered in the loop iterations around the instant the synchronisation wait is given up
+        # (timeout of synchronize(), or the connect task being cancelled): offset to the deadline in seconds, extra call_soon hops
+        "sync_edge": rng.choice((None, None, None, None, None, "timeout", "timeout", "cancel")),
+        "sync_edge_offset": rng.choice((-3e-10, 0.0, 1e-10, 3e-10, 6e-10, 1e-3)),
+        "sync_edge_hops": rng.choice((0, 0, 0, 1, 2)),
     }
 
 
@@ -487,6 +493,44 @@ def run_history(ctx, spec):
         task = asyncio.create_task(routing.connect())
         await asyncio.sleep(0.001)
         tmr = routing.transport.secure_timer
+        edge = spec.get("sync_edge")
+        if edge is not None and our_sync_identity() is not None:
+            serial, tag = our_sync_identity()
+            raw, cls = tn(tmr.current_timer_value() + rng.choice((3_600_000, 12345, 0)), serial=serial, tag=tag)
+
+            def deliver_edge(hops=spec["sync_edge_hops"]):
+                if hops:
+                    loop.call_soon(deliver_edge, hops - 1)
+                    return
+                ctx.count("sync_reply_at_edge_delivered_" + ("while_waiting" if not task.done() and not tmr.timer_authenticated else "after"))
+                inject("synchronisation-reply-in-iteration-the-wait-is-given-up", raw, cls)
+
+            ctx.count("sync_edge_" + edge)
+            if edge == "timeout":
+                sync_tx = next(t for t, data in tx_records() if peer.classify(data)["kind"] == "timer_notify")
+                # the deadline exactly as synchronize() computes it: loop.time() at its start + delay
+                deadline = sync_tx + (tmr.max_delay_time_follower_update_notify + 2 * tmr.latency_tolerance_ms / 1000)
+                loop.call_at(deadline + spec["sync_edge_offset"], deliver_edge)
+                try:
+                    await asyncio.wait_for(task, 60)
+                except Exception as exc:  # noqa: BLE001
+                    ctx.count("connect_raised_" + type(exc).__name__)
+                    return
+                await asyncio.sleep(0.001)
+            else:
+                await asyncio.sleep(rng.choice((0.0, 0.05, 0.2)))
+                task.cancel()
+                deliver_edge()
+                for _ in range(3):
+                    await asyncio.sleep(0)
+                    inject("synchronisation-reply-after-connect-was-cancelled", raw, cls)
+                try:
+                    await asyncio.wait_for(task, 60)
+                except BaseException as exc:  # noqa: BLE001
+                    ctx.count("connect_after_cancel_" + type(exc).__name__)
+                kinds.append("cancelled")
+                await routing.disconnect()
+                return
         for kind in spec["sync"]:
             await asyncio.sleep(rng.choice((0.0, 0.01, 0.125, 0.15, 0.4, rng.randrange(1, 500) / 1000)))
             if task.done():
@@ -580,7 +624,7 @@ def run(ctx):
     ctx.require(
         "histories", "delivered_plain", "delivered_tn", "delivered_wrapper", "delivered_garbage", "plain_discovery_forwarded", "plain_other_dropped",
         "valid_timely_wrapper_forwarded", "late_wrapper_dropped", "unauthentic_wrapper_dropped", "tn_authentic", "tn_unauthentic",
-        "timer_moved_by_tn", "timer_moved_by_wrapper", "malformed_injected", "busy_fade_out_patterns", "restarts_of_the_same_secure_routing_object", "restart_second_sync_timekeeper", "restart_second_sync_follower", "tx_wrappers", "tx_timer_notifies", "synchronised_as_timekeeper", "synchronised_as_follower", "sends",
+        "timer_moved_by_tn", "timer_moved_by_wrapper", "malformed_injected", "busy_fade_out_patterns", "sync_edge_timeout", "sync_edge_cancel", "sync_reply_at_edge_delivered_while_waiting", "restarts_of_the_same_secure_routing_object", "restart_second_sync_timekeeper", "restart_second_sync_follower", "tx_wrappers", "tx_timer_notifies", "synchronised_as_timekeeper", "synchronised_as_follower", "sends",
     )
     n = ctx.scale(700, 200000)
     for i in range(n):
